@@ -20,8 +20,52 @@ fn arg(args: &[String], name: &str) -> Option<String> {
     args.iter().position(|a| a == name).and_then(|i| args.get(i + 1).cloned())
 }
 
+static FORCE_T: std::sync::atomic::AtomicBool = std::sync::atomic::AtomicBool::new(false);
+
+/// World T runs once per process: execute the plan in a child process of this very binary.
+fn exec_t_child(prop: &str, plan: &Rc<Plan>) -> Result<Executed, String> {
+    use std::io::Write as _;
+    let exe = std::env::current_exe().map_err(|e| e.to_string())?;
+    let mut child = std::process::Command::new(exe)
+        .args(["exec-plan", "--prop", prop])
+        .stdin(std::process::Stdio::piped())
+        .stdout(std::process::Stdio::piped())
+        .stderr(std::process::Stdio::piped())
+        .spawn()
+        .map_err(|e| e.to_string())?;
+    child.stdin.take().ok_or("no stdin")?.write_all(serde_json::to_string(&**plan).map_err(|e| e.to_string())?.as_bytes()).map_err(|e| e.to_string())?;
+    let out = child.wait_with_output().map_err(|e| e.to_string())?;
+    if !out.status.success() {
+        return Err(format!("exec-plan child failed: {}", String::from_utf8_lossy(&out.stderr)));
+    }
+    #[derive(serde::Deserialize)]
+    struct ChildOut {
+        violations: Vec<cucumber_sim::model::Violation>,
+        history: cucumber_sim::runa::History,
+    }
+    let line = String::from_utf8_lossy(&out.stdout);
+    let line = line.lines().rev().find(|l| l.starts_with("{\"history\"")).ok_or("exec-plan child printed no result")?;
+    let co: ChildOut = serde_json::from_str(line).map_err(|e| format!("child output: {e}"))?;
+    Ok(Executed { violations: co.violations, history: Some(co.history), chistory: None, bhistory: None })
+}
+
+fn exec_plan_child(args: &[String]) -> Result<u8, String> {
+    use std::io::Read as _;
+    let prop = arg(args, "--prop").ok_or("--prop missing")?;
+    let mut s = String::new();
+    std::io::stdin().read_to_string(&mut s).map_err(|e| e.to_string())?;
+    let plan: Plan = serde_json::from_str(&s).map_err(|e| e.to_string())?;
+    let e = check::execute_t_inproc(&prop, &Rc::new(plan))?;
+    println!("{}", serde_json::json!({"violations": e.violations, "history": e.history}));
+    Ok(0)
+}
+
 fn exec(prop: &str, plan: &Rc<Plan>) -> Result<Executed, String> {
+    if FORCE_T.load(std::sync::atomic::Ordering::SeqCst) && check::world_of(prop) == 'A' {
+        return exec_t_child(prop, plan);
+    }
     match check::world_of(prop) {
+        'T' => exec_t_child(prop, plan),
         'A' => check::execute_a(prop, plan),
         'C' => check::execute_c(prop, plan),
         'B' => check::execute_b(prop, plan),
@@ -37,6 +81,7 @@ fn main() -> ExitCode {
         "replay" => replay(&args),
         "digests" => digests(&args),
         "show" => show(&args),
+        "exec-plan" => exec_plan_child(&args),
         _ => Err(format!("unknown mode {mode:?}")),
     });
     match res {
@@ -61,6 +106,9 @@ struct Common {
 }
 
 fn common(args: &[String]) -> Result<Common, String> {
+    if args.iter().any(|a| a == "--collector") {
+        FORCE_T.store(true, std::sync::atomic::Ordering::SeqCst);
+    }
     Ok(Common {
         prop: arg(args, "--prop").ok_or("--prop missing")?,
         tier: arg(args, "--tier").unwrap_or_else(|| "quick".into()),
@@ -79,6 +127,9 @@ fn plan_for(c: &Common, index: u64) -> (u64, Plan) {
     }
     if check::world_of(&c.prop) == 'B' {
         check::decorate_for_world_b(&c.prop, &mut plan);
+    }
+    if FORCE_T.load(std::sync::atomic::Ordering::SeqCst) {
+        plan.tracing = true;
     }
     (run_seed, plan)
 }
@@ -138,6 +189,9 @@ fn run(args: &[String]) -> Result<u8, String> {
 fn replay(args: &[String]) -> Result<u8, String> {
     let path = args.get(2).ok_or("replay: file missing")?;
     let rf: ReplayFile = serde_json::from_str(&fs::read_to_string(path).map_err(|e| e.to_string())?).map_err(|e| e.to_string())?;
+    if rf.world == "T" {
+        FORCE_T.store(true, std::sync::atomic::Ordering::SeqCst);
+    }
     if rf.build != check::build_name() {
         return Err(format!("replay file is for build {:?}, this worker is {:?}", rf.build, check::build_name()));
     }
